@@ -207,6 +207,34 @@ def check_attribute_kinds(t, shape, m):
             judge(t, "%s.findall_by_attr(value=%r) over values of mixed kinds" % (modname, value), ("ok", exp),
                   outcome(mod.findall_by_attr, nodes[0], value, name="flag"), idm, {"shape": shape, "node_class": "AnyNode with flags %r" % (vals,)})
             t.c["attribute_kind_queries"] += 1
+    # bounds and maxlevel given as numbers that are not small ints: compared like numbers (2.0, 2.5, True, 10**30, inf)
+    nodes = [anytree.AnyNode(tag="x") for _ in range(m.n)]
+    for i in range(m.n):
+        if m.par[i] is not None:
+            nodes[i].parent = nodes[m.par[i]]
+    idm = tree.IdMap(nodes)
+    pre = m.pre(0)
+    k = len(pre)
+    for mn, mx in ((float(k), None), (k + 0.5, None), (None, float(k)), (None, k - 0.5), (True, None), (None, 10 ** 30), (None, float("inf")), (k - 0.5, k + 0.5)):
+        exp = expect_findall(pre, mn, mx)
+        for mod, modname in ((search, "search"), (cachedsearch, "cachedsearch")):
+            got = outcome(mod.findall_by_attr, nodes[0], "x", name="tag", mincount=mn, maxcount=mx)
+            t.c["evaluations"] += 1
+            t.c["attribute_kind_queries"] += 1
+            ok = got[0] == exp[0] and (got[0] != "ok" or idm.seq(got[1]) == exp[1])
+            if not ok:
+                t.violation("C14: %s.findall_by_attr with mincount=%r, maxcount=%r: expected %s, observed %s" % (modname, mn, mx, exp[0], got[0]),
+                            {"engine": "E2", "module": MOD, "shape": shape, "node_class": "AnyNode", "query": "numeric bounds %r %r" % (mn, mx)})
+    for mlv, eq in ((True, 1), (2.0, 2), (10 ** 30, None), (float("inf"), None), (2 ** 63, None)):
+        exp = m.restricted(0, frozenset(), frozenset(), eq)[0]["pre"]
+        for mod, modname in ((search, "search"), (cachedsearch, "cachedsearch")):
+            for fn in ("findall", "findall_by_attr"):
+                got = outcome(getattr(mod, fn), nodes[0], maxlevel=mlv) if fn == "findall" else outcome(getattr(mod, fn), nodes[0], "x", name="tag", maxlevel=mlv)
+                t.c["evaluations"] += 1
+                t.c["attribute_kind_queries"] += 1
+                if got[0] != "ok" or idm.seq(got[1]) != exp:
+                    t.violation("C14: %s.%s with maxlevel=%r differs from maxlevel=%r" % (modname, fn, mlv, eq),
+                                {"engine": "E2", "module": MOD, "shape": shape, "node_class": "AnyNode", "query": "maxlevel %r" % (mlv,)})
     # stateful predicates: filter_ / stop are asked in ONE pre-order pass (a "first of every kind" filter with a seen-set)
     nodes = [anytree.AnyNode(kind="k%d" % (i % 2)) for i in range(m.n)]
     for i in range(m.n):
